@@ -1737,3 +1737,63 @@ mut("c19-fallible-step-between-commit-and-events", ["C19"], [(BM, '''	// Notify 
 	// Notify subscribers, and also update the filter header progress
 	// logger at the same time.
 	for i, header := range matchingBlockHeaders {''')], ["C19.O5"])
+
+# ---- rules added after the seventh batch of seeded changes ----
+mut("c02-reorg-parent-height-offset-by-known-prefix", ["C02"], [(BM, "				prevNodeHeight := backHeight + uint32(j)\n", "				prevNodeHeight := backHeight + uint32(i+j)\n")], ["C02.V4"])
+mut("c02-reorg-node-height-without-plus-one", ["C02"], [(BM, "					Height: int32(backHeight+1) + int32(j),", "					Height: int32(backHeight) + int32(j),")], ["C02.V4"])
+mut("c02-quiet-reorg-parent-height-respelled", ["C02"], [(BM, "				prevNodeHeight := backHeight + uint32(j)\n", "				prevNodeHeight := uint32(j) + backHeight + 1 - 1\n")], [])
+mut("c03-overlong-cfheaders-answer-accepted", ["C03"], [(BM, "					len(m.FilterHashes) == numHeaders {", "					len(m.FilterHashes) >= numHeaders {")], ["C03.G5"])
+mut("c03-cfheaders-answer-type-not-compared", ["C03"], [(BM, "				if m.StopHash == stopHash &&\n					m.FilterType == fType &&\n", "				if m.StopHash == stopHash &&\n")], ["C03.G5"])
+mut("c04-done-peer-early-return-for-non-candidates", ["C04"], [(BM, '	log.Infof("Lost peer %s", sp)\n', '	log.Infof("Lost peer %s", sp)\n	if !b.isSyncCandidate(sp) {\n		return\n	}\n')], ["C04.O1"])
+mut("c05-target-cached-under-last-filter", ["C05"], [(Q, "	// The headerIndex is empty and so this query is complete.\n", "	if _, err := q.cs.putFilterToCache(&q.targetHash, dbFilterType, filter); err != nil {\n		log.Warnf(\"cache: %v\", err)\n	}\n	// The headerIndex is empty and so this query is complete.\n")], ["C05.V5"])
+mut("c05-quiet-target-recached-under-its-own-hash", ["C05"], [(Q, "	// The headerIndex is empty and so this query is complete.\n", "	if q.targetFilter != nil {\n		if _, err := q.cs.putFilterToCache(&q.targetHash, dbFilterType, q.targetFilter); err != nil {\n			log.Warnf(\"cache: %v\", err)\n		}\n	}\n	// The headerIndex is empty and so this query is complete.\n")], [])
+mut("c07-pooled-buffer-reset-only-after-success", ["C07"], [(ST, "	headerBuf := headerBufPool.Get().(*bytes.Buffer)\n	headerBuf.Reset()\n	defer headerBufPool.Put(headerBuf)\n\n	// Next, we'll write out all the passed headers in series into the\n	// buffer we just extracted from the pool.\n	for _, header := range hdrs {\n		if err := header.Serialize(headerBuf); err != nil {", "	headerBuf := headerBufPool.Get().(*bytes.Buffer)\n	defer headerBufPool.Put(headerBuf)\n\n	// Next, we'll write out all the passed headers in series into the\n	// buffer we just extracted from the pool.\n	for _, header := range hdrs {\n		if err := header.Serialize(headerBuf); err != nil {")], ["C07.O4"])
+mut("c07-quiet-pooled-buffer-reset-when-put-back", ["C07"], [(ST, "	headerBuf := headerBufPool.Get().(*bytes.Buffer)\n	headerBuf.Reset()\n	defer headerBufPool.Put(headerBuf)\n\n	// Next, we'll write out all the passed headers in series into the\n	// buffer we just extracted from the pool.\n	for _, header := range hdrs {\n		if err := header.Serialize(headerBuf); err != nil {", "	headerBuf := headerBufPool.Get().(*bytes.Buffer)\n	headerBuf.Reset()\n	defer func() {\n		headerBuf.Reset()\n		headerBufPool.Put(headerBuf)\n	}()\n\n	// Next, we'll write out all the passed headers in series into the\n	// buffer we just extracted from the pool.\n	for _, header := range hdrs {\n		if err := header.Serialize(headerBuf); err != nil {")], [])
+mut("c08-partial-record-not-trimmed-on-open", ["C08"], [(ST, "	if err := headerFile.trimPartialHeader(hType); err != nil {\n		return nil, err\n	}\n", "")], ["C08.O7"])
+mut("c08-trim-error-ignored", ["C08"], [(ST, "	if err := headerFile.trimPartialHeader(hType); err != nil {\n		return nil, err\n	}\n", "	_ = headerFile.trimPartialHeader(hType)\n")], ["C08.O7"])
+mut("c08-trim-cuts-a-whole-record-too", ["C08"], [(ST, "	return h.truncateFile(fileSize - partialLength)", "	return h.truncateFile(fileSize - partialLength - int64(headerTypeSize))")], ["C08.O7"])
+mut("c09-watched-address-scripts-cached-once", ["C09"], [(RS, "		for _, addr := range ro.watchAddrs {\n			// We'll convert the address into its matching pkScript\n			// to in order to check for a match.\n			addrScript, err := txscript.PayToAddrScript(addr)\n			if err != nil {\n				return false, err\n			}\n", "		for _, addrScript := range addrScriptsOnce(ro) {\n")], ["C09.V3"], new_files=[("zz_addrscripts.go", '''package neutrino
+
+import "github.com/btcsuite/btcd/txscript/v2"
+
+var zzScripts [][]byte
+
+func addrScriptsOnce(ro *rescanOptions) [][]byte {
+	if zzScripts == nil {
+		for _, a := range ro.watchAddrs {
+			s, err := txscript.PayToAddrScript(a)
+			if err == nil {
+				zzScripts = append(zzScripts, s)
+			}
+		}
+	}
+	return zzScripts
+}
+''')])
+mut("c10-initial-tx-search-stops-on-a-request-count", ["C10"], [(BSR, "		if len(txidReverseIndex) == 0 {\n			break\n		}", "		if len(initialTxns) >= len(txidReverseIndex) {\n			break\n		}")], ["C10.V3"])
+mut("c12-new-batches-channel-buffered", ["C12"], [(WM, "		newBatches:    make(chan *batch),", "		newBatches:    make(chan *batch, 8),")], ["C12.V1"])
+mut("c14-eof-matched-loosely", ["C14"], [(HI, "		if err == io.EOF {\n			break\n		}", "		if errors.Is(err, io.EOF) {\n			break\n		}")], ["C14.G4"])
+mut("c15-confirmation-reported-by-witness-hash", ["C15"], [(RS, "				chainSource.broadcaster.MarkAsConfirmed(\n					*tx.Hash(),\n				)", "				chainSource.broadcaster.MarkAsConfirmed(\n					*tx.WitnessHash(),\n				)")], ["C15.T3"])
+mut("c16-replace-in-place-keeps-old-recency", ["C16"], [(LRU, "		c.ll.Remove(el)\n		c.size -= es\n	}\n", "		if vs <= es {\n			el.Value.value = value\n			c.size -= es - vs\n			c.mtx.Unlock()\n\n			return false, nil\n		}\n\n		c.ll.Remove(el)\n		c.size -= es\n	}\n")], ["C16.O1"])
+mut("c16-get-without-move-to-front", ["C16"], [(LRU, "	c.ll.MoveToFront(el)\n	return el.Value.value, nil", "	return el.Value.value, nil")], ["C16.O1"])
+mut("c18-target-filter-read-after-error-verdict", ["C18"], [(Q, "	case err := <-errChan:\n		if err != nil {\n			return nil, err\n		}\n\n	case <-s.quit:\n		return nil, ErrShuttingDown\n	}\n\n	// If there are elements left to receive, the query failed.", "	case err := <-errChan:\n		if err != nil && filterQuery.targetFilter == nil {\n			return nil, err\n		}\n\n	case <-s.quit:\n		return nil, ErrShuttingDown\n	}\n\n	// If there are elements left to receive, the query failed.")], ["C18.R6"])
+mut("c08-quiet-append-in-chunks", ["C07", "C08"], [(HF, "	n, err := h.file.Write(header)\n	if err != nil {", "	var n int\n	for len(header) > 0 && err == nil {\n		chunk := header\n		if len(chunk) > 1<<16 {\n			chunk = chunk[:1<<16]\n		}\n		var w int\n		w, err = h.file.Write(chunk)\n		n += w\n		header = header[w:]\n	}\n	if err != nil {")], [])
+
+# ---- rules written with the repairs of F11 and F14 ----
+BHVF = "chainimport/block_headers_validator.go"
+mut("c14-first-header-not-validated", ["C14"], [(BHVF, '''		if lastHeader == nil && len(batch) > 0 {
+			if err = v.validateFirst(batch[0]); err != nil {
+				return fmt.Errorf("validation of first header "+
+					"failed: %w", err)
+			}
+		}
+''', "")], ["C14.G5"])
+mut("c14-first-header-error-dropped", ["C14"], [(BHVF, '''			if err = v.validateFirst(batch[0]); err != nil {
+				return fmt.Errorf("validation of first header "+
+					"failed: %w", err)
+			}
+''', "			_ = v.validateFirst(batch[0])\n")], ["C14.G5"])
+mut("c14-first-header-parent-at-own-height", ["C14"], [(BHVF, "	parent, err := v.targetBlockHeaderStore.FetchHeaderByHeight(\n		firstBlk.Height - 1,\n	)", "	parent, err := v.targetBlockHeaderStore.FetchHeaderByHeight(\n		firstBlk.Height,\n	)")], ["C14.G5"])
+mut("c14-first-header-always-accepted-without-parent", ["C14"], [(BHVF, "	if err != nil {\n		return v.ValidateSingle(first)\n	}\n\n	return v.ValidatePair(&blockHeader{", "	if err != nil {\n		return nil\n	}\n\n	return v.ValidatePair(&blockHeader{")], ["C14.G5"])
+mut("c02-floor-from-tip-height-itself", ["C01", "C02"], [(BM, "				prevNode.Height + 1,\n", "				prevNode.Height,\n")], ["C01.V5", "C02.V2"])
+mut("c02-floor-from-fork-height", ["C01", "C02"], [(BM, "				prevNode.Height + 1,\n", "				int32(backHeight) + 1,\n")], ["C01.V5", "C02.V2"])
